@@ -1,2 +1,7 @@
 """C10 -- see DESIGN.md section 3/C10."""
-from bounded.bC10 import run as bounded  # noqa: F401
+
+
+def bounded(tier, seed, info):
+    from bounded.bC10 import run
+    from bounded.bHist import run_parser_histories
+    return run(tier, seed, info) + run_parser_histories('C10', tier, seed)
